@@ -363,6 +363,10 @@ func (b *pickfirstBalancer) ExitIdle() {
 			ConnectivityState: connectivity.Connecting,
 			Picker:            &picker{err: balancer.ErrNoSubConnAvailable},
 		})
+		// Start the pass from the first address: the cursor may have moved
+		// while IDLE if a SubConn reported a failure in the meantime, and
+		// addresses before it would otherwise never be tried again.
+		b.addressList.reset()
 		b.startFirstPassLocked()
 	}
 }
